@@ -18,7 +18,6 @@
 #               Outs at the rate they were created with
 import hashlib
 import multiprocessing as mp
-import os
 import random
 import traceback
 
@@ -60,21 +59,7 @@ def _snapshot():
                     x = x.source_ugen
                 if id(x) in users:
                     users[id(x)].add(id(u))
-        droppable = set()
-        changed = True
-        while changed:
-            changed = False
-            for u in kids:
-                if id(u) in droppable:
-                    continue
-                if isinstance(u, (ugn.BinaryOpUGen, ugn.UnaryOpUGen,
-                                  ugn.PureUGenMixin)) \
-                        and users[id(u)] <= droppable:
-                    droppable.add(id(u))
-                    changed = True
         for u in kids:
-            if isinstance(u, ugn.BasicOpUGen) and id(u) in droppable:
-                feats['dead_ops'] = True
             if isinstance(u, ugn.BinaryOpUGen) and len(u.inputs) == 2:
                 a, b = u.inputs
                 if a is b and isinstance(a, ugn.UGen):
